@@ -1,13 +1,15 @@
 #!/bin/sh
-# usage: tools/try_seed.sh <patch.diff> <tier> <ID> [<ID>...]   — applies the patch to /repo, runs the checks, always reverts
+# usage: tools/try_seed.sh <patch.diff> <tier> <ID> [<ID>...]
+# Applies the patch in a scratch worktree of /repo HEAD (never in /repo itself, other jobs read it), runs the checks against
+# that tree through VERIF_REPO, removes the worktree.
 patch="$1"; tier="$2"; shift 2
-cd /repo || exit 2
-if ! git diff --quiet; then echo "repo dirty"; exit 2; fi
-if ! git apply --3way "$patch" 2>/tmp/apply.err && ! git apply "$patch" 2>>/tmp/apply.err; then echo "PATCH DOES NOT APPLY"; cat /tmp/apply.err | tail -3; git checkout -- . ; exit 3; fi
-git reset -q 2>/dev/null
+wt=/tmp/seedtry_$$
+git -C /repo worktree add -q --detach "$wt" HEAD || exit 2
+cd "$wt" || exit 2
+if ! git apply --3way "$patch" 2>/tmp/apply.err && ! git apply "$patch" 2>>/tmp/apply.err; then echo "PATCH DOES NOT APPLY"; tail -3 /tmp/apply.err; cd /; git -C /repo worktree remove --force "$wt"; exit 3; fi
 for id in "$@"; do
   start=$(date +%s)
-  out=$(cd /verif && ./check "$id" --tier "$tier" 2>&1); rc=$?
+  out=$(cd /verif && VERIF_REPO="$wt" ./check "$id" --tier "$tier" 2>&1); rc=$?
   echo "== $id rc=$rc $(( $(date +%s) - start ))s"; echo "$out" | grep -E "VIOLATION|HARNESS|KNOWN" | head -5
 done
-cd /repo && git checkout -- . && git status --short | head -3
+cd /; git -C /repo worktree remove --force "$wt"
